@@ -30,7 +30,7 @@ ENUM_BATCHES = [
 
 def gen_plan(base_seed, i, tier):
     rng = common.rng_for(base_seed, "C10", i)
-    rows = common.pick_rows(rng, rng.randint(1, 4), {"mcs-based": 10})
+    rows = common.pick_rows(rng, rng.randint(1, 4) if rng.random() < 0.8 else rng.randint(5, 9), {"mcs-based": 10, "no-mcs": 1})
     rows += common.pick_rows(rng, rng.randint(1, 3), {"rule-based": 2, "input-balanced": 2, "declined": 1, "redox": 1})
     rng.shuffle(rows)
     cfg = common.gen_config(rng, len(rows), thresholds=(0,))
